@@ -13,7 +13,8 @@ Views(e, step) ==
   /\ Closed
   /\ Record(WholeClauses \o ViewClauses([top |-> e.top, edited |-> e.edited, flat |-> e.flat,
                                           annRemoved |-> SetOf(e.annRemoved), annInserted |-> SetOf(e.annInserted),
-                                          hadEdits |-> e.hadEdits, ann |-> e.ann, chained |-> e.chained]), step)
+                                          hadEdits |-> e.hadEdits, ann |-> e.ann, chained |-> e.chained,
+                                          partsFirst |-> e.partsFirst]), step)
   /\ UNCHANGED <<docvars, stack, removed, inserted, nonkeep, total>>
 \* comparisons observed without the extra views (e.g. scripts recorded from the repository's own tests)
 Whole(step) ==
